@@ -88,6 +88,14 @@ def family(tier):
         for core in cores:
             for post in ctx_post:
                 yield "F3-context", pre + core + post
+    # an unclosed '[' whose scan ran over a complete inner [: :] / [. .] / [= =]: the '[' is literal and
+    # what follows is read again from the next character (so the inner construct's ']' may close a
+    # bracket expression that starts later)
+    for inner in (N("[:alpha:]"), N("[.a.]"), N("[=b=]")):
+        for pre in ([], N("a"), N("x[a")):
+            for post in ([], N("*"), N("b")):
+                yield "F3-unclosed-inner", pre + N("[") + inner + post
+                yield "F3-unclosed-inner", pre + N("[a") + inner + post
     for name in CLASS_NAMES:
         for neg in negs:
             yield "F3-class", N("[") + neg + N("[:" + name + ":]") + N("]")
